@@ -66,7 +66,7 @@ func newRepoUnderTest(impl string, scratch string) (*repoUnderTest, error) {
 			dsn = fmt.Sprintf("file:gkh%d_%d?mode=memory&cache=shared&_fk=1", os.Getpid(), dbSeq.Add(1))
 		} else {
 			file = filepath.Join(scratch, fmt.Sprintf("gkh%d_%d.db", os.Getpid(), dbSeq.Add(1)))
-			dsn = "file:" + file + "?cache=shared&_fk=1"
+			dsn = "file:" + file + "?_fk=1"
 		}
 		client, err := gen.Open("sqlite3", dsn)
 		if err != nil {
